@@ -411,12 +411,63 @@ def rule_r5(chk, F):
                             "by an unbounded amount before emit_stack_limit_check()", gc[0].where())
 
 
+def rule_r6(chk, F):
+    """The byte size of an array is length * element_size + header.  The length guard admits lengths up to 2^40, so
+    the product needs the full register: a 32-bit multiply/add truncates it, a request of 4 GiB or more is granted
+    from the allocation fast path with a tiny size, and later in-bounds stores overwrite neighbouring objects."""
+    import re as _re
+    r = chk.rule("C13.R6", "the baseline compiler computes an array's allocation size in full register width: the "
+                           "size routine emits only 64-bit instruction forms and passes only pointer-width machine "
+                           "modes to the helpers it uses")
+    c = F.crate("dora_cannon_compiler")
+    fns = [p for p in c.mir if last(p) == "determine_array_size" and "::masm::x64::" in p]
+    if not r.anchor("masm::x64 determine_array_size", fns):
+        return
+    # callers: the size must reach the allocation, i.e. the routine is really the allocation-size computation
+    users = [p for p, mb in c.mir.items() if "CannonCodeGen" in p and any(
+        (x.name or "").endswith("determine_array_size") for x in cfg.Body(mb).calls)]
+    r.anchor("code generator functions using determine_array_size", users)
+    WIDE = {"Ptr", "Int64", "IntPtr"}
+    n = 0
+    for p in fns:
+        B = cfg.Body(c.mir[p])
+        defs = cfg.simple_defs(B)
+        for x in B.calls:
+            nm = x.name or ""
+            if nm.startswith("dora_asm::x64::AssemblerX64::"):
+                ins = last(nm)
+                n += 1
+                wide = ins == "lea" or _re.match(r"^[a-z0-9]+q(_[a-z0-9]+)*$", ins) is not None
+                r.instance("%s:%s" % (p, ins), sample={"insn": ins, "64-bit": wide})
+                if not wide:
+                    r.violation("%s:%s:narrow-instruction-in-size-computation" % (p, ins),
+                                "`%s` is not a 64-bit instruction form: length * element_size (+ header) is truncated "
+                                "to the narrower width, so an array of 2^28 16-byte elements gets a size of a few "
+                                "bytes and is granted instead of ending in the out-of-memory trap" % ins, x.where())
+                continue
+            for a in x.args:
+                if a[0] not in ("c", "m"):
+                    continue
+                o = cfg.origin(B, a, defs)
+                if o[0] == "agg" and isinstance(o[1], list) and len(o[1]) >= 3 and str(o[1][1]).endswith("MachineMode"):
+                    n += 1
+                    mode = o[1][2]
+                    r.instance("%s:%s(MachineMode::%s)" % (p, last(nm), mode), sample={"helper": nm, "mode": mode})
+                    if mode not in WIDE:
+                        r.violation("%s:%s(MachineMode::%s):narrow-mode-in-size-computation" % (p, last(nm), mode),
+                                    "the size computation calls `%s` with MachineMode::%s: the arithmetic is done in "
+                                    "%s bits and wraps for requests of 4 GiB and more" % (
+                                        last(nm), mode, "32" if "32" in mode else "fewer than 64"), x.where())
+    r.floor("instructions/mode arguments in the size routine", n, 5)
+
+
 def run(chk, F):
     rule_r1(chk, F)
     rule_r2(chk, F)
     rule_r3(chk, F)
     rule_r4(chk, F)
     rule_r5(chk, F)
+    rule_r6(chk, F)
     chk.assumptions += [
         "std::thread::spawn's default stack is 2 MiB (std documentation; RUST_MIN_STACK unset)",
         "that the safety margin of the stack budget covers every native callee is a run-time quantity and is not "
